@@ -1,0 +1,32 @@
+//go:build verif
+
+// Contracts for the deductive verifier kept in /verif (govc). This file is comment-only:
+// with the build tag off it does not exist for the compiler, with it on it compiles to nothing.
+package caldav
+
+//@ -- ---------------------------------------------------------------------------------------
+//@ -- C19: RFC 4791 section 4.1 calendar object rules
+//@ spec cname(cal *ical.Calendar, j int) string = cal.Children[j].Name
+//@ spec cuid(cal *ical.Calendar, j int) string = propsText(cal.Children[j].Props, "UID")
+//@ spec cuidErr(cal *ical.Calendar, j int) error = propsTextErr(cal.Children[j].Props, "UID")
+//@ spec inCal(cal *ical.Calendar, j int) bool = 0 <= j && j < len(cal.Children)
+//@ spec validObject(cal *ical.Calendar) bool = propsGet(cal.Props, "METHOD") == nil
+//@   | && (forall j, k :: inCal(cal, j) && inCal(cal, k) && cname(cal, j) != "VTIMEZONE" && cname(cal, k) != "VTIMEZONE" ==> cname(cal, j) == cname(cal, k))
+//@   | && (forall j, k :: inCal(cal, j) && inCal(cal, k) && cuid(cal, j) != "" && cuid(cal, k) != "" ==> cuid(cal, j) == cuid(cal, k))
+//@ func caldav.ValidateCalendarObject(cal) (eventType, uid, err)
+//@   requires R1: cal != nil && cal.Component != nil
+//@   requires R2: forall j :: inCal(cal, j) ==> cal.Children[j] != nil
+//@   ensures E1: (forall j :: inCal(cal, j) ==> cuidErr(cal, j) == nil) ==> (err == nil <==> validObject(cal))
+//@   ensures E2: err == nil ==> (forall j :: inCal(cal, j) && cname(cal, j) != "VTIMEZONE" ==> cname(cal, j) == eventType)
+//@   ensures E2n: err == nil && (forall j :: inCal(cal, j) ==> cname(cal, j) == "VTIMEZONE") ==> eventType == ""
+//@   ensures E3: err != nil ==> eventType == "" && uid == ""
+//@   ensures E4: err == nil ==> (forall j :: inCal(cal, j) && cuid(cal, j) != "" ==> cuid(cal, j) == uid)
+//@   ensures E4n: err == nil && (forall j :: inCal(cal, j) ==> cuid(cal, j) == "") ==> uid == ""
+//@   loop 1 invariant I0: propsGet(cal.Props, "METHOD") == nil
+//@   loop 1 invariant I1: forall j :: 0 <= j && j < #i ==> cuidErr(cal, j) == nil
+//@   loop 1 invariant I2: !hasEventType ==> eventType == "" && (forall j :: 0 <= j && j < #i ==> cname(cal, j) == "VTIMEZONE")
+//@   loop 1 invariant I3: hasEventType ==> eventType != "VTIMEZONE" && (exists j :: 0 <= j && j < #i && cname(cal, j) == eventType)
+//@   |   && (forall j :: 0 <= j && j < #i && cname(cal, j) != "VTIMEZONE" ==> cname(cal, j) == eventType)
+//@   loop 1 invariant I4: uid == "" ==> (forall j :: 0 <= j && j < #i ==> cuid(cal, j) == "")
+//@   loop 1 invariant I5: uid != "" ==> (exists j :: 0 <= j && j < #i && cuid(cal, j) == uid)
+//@   |   && (forall j :: 0 <= j && j < #i && cuid(cal, j) != "" ==> cuid(cal, j) == uid)
